@@ -55,6 +55,9 @@ def run(ctx):
         ("c2", OP("OR", OP("AND", T("Beta"), T("Gamma")), OP("AND", T("Beta"), OP("NOT", T("Delta"))))),
         ("c3", OP("OR", T("Alpha"), OP("OR", T("Beta"), OP("AND", T("Gamma"), T("Delta"))))),
         ("c4", OP("OR", OP("OR", OP("AND", T("Zeta"), T("Eta")), T("Gamma")), T("Epsilon")))]))
+    # different constraints carrying one name (a label, not a key)
+    cases.append(dict(root=wide, ctcs=[("rule", OP("IMPLIES", T("Alpha"), T("Gamma"))), ("rule", OP("EXCLUDES", T("Beta"), T("Eta"))),
+                                       ("rule", OP("OR", T("Delta"), T("Gamma")))]))
     # order-permuted twins: equal-comparing models whose text differs (children in another order)
     import copy
     for m in list(cases[:6]) + list(cases[-4:]):
@@ -100,6 +103,9 @@ def run(ctx):
                         st.oracle_fail(w, case, "returned-differs-from-file", w)
                     if not a["repeat_same"] or not a["nofile_same"]:
                         st.oracle_fail(w, case, "repeated-call-differs", w)
+                    if not a.get("same_content_same_text", True):
+                        st.oracle_fail(w, case, "same-content-written-differently",
+                                       w + ": a model built top-down and one that reached the same content through setters")
                     if not a["utf8"]:
                         st.oracle_fail(w, case, "file-is-not-utf8", w)
                     rb = a.get("readback_names")
